@@ -138,20 +138,28 @@ def solve(req):
                 return {'error': 'goal is not an identity: remainder %s' % str(f)[:300]}
             gens = sorted(f.free_symbols | set().union(*[h.free_symbols for h in hpolys]), key=str)
             done = False
-            for order in ('grevlex', 'lex', 'grlex'):
-                for perm in itertools.islice(itertools.permutations(gens), 0, 24):
-                    try:
-                        Q, rem = sympy.reduced(f, hpolys, *perm, order=order)
-                    except Exception:
-                        continue
-                    if rem == 0:
-                        hc = Q
-                        done = True
-                        break
-                if done:
+            rem = f
+            for order in ('grevlex', 'lex'):
+                try:
+                    Q, rem = sympy.reduced(f, hpolys, *gens, order=order)
+                except Exception:
+                    continue
+                if rem == 0:
+                    hc = Q
+                    done = True
                     break
             if not done:
-                return {'error': 'no cofactors found; remainder of last attempt %s' % str(rem)[:300]}
+                # ideal membership with cofactors through sympy's module machinery (lifts the Groebner-basis reduction
+                # back to the original generators)
+                try:
+                    from sympy import QQ
+                    ring = QQ.old_poly_ring(*gens)
+                    ideal = ring.ideal(*hpolys)
+                    coeffs = ideal.in_terms_of_generators(f)
+                    hc = [sympy.expand(ring.to_sympy(c)) if not isinstance(c, sympy.Basic) else c for c in coeffs]
+                    done = True
+                except Exception as e:
+                    return {'error': 'no cofactors found (%s); remainder of division %s' % (repr(e)[:200], str(rem)[:300])}
         # final check of the certificate
         lhs = sympy.expand(c * sympy.expand(l - r))
         rhs = sum(cof[str(ctx.quot[k][0])] * sympy.expand(ctx.quot[k][2] * ctx.quot[k][0] - ctx.quot[k][1]) for k in qkeys if str(ctx.quot[k][0]) in cof)
